@@ -12,7 +12,7 @@ typedef struct {
 	unsigned nrec_total; uint64_t rec_unp[REF_MAX_BLOCKS], rec_unc[REF_MAX_BLOCKS];
 	unsigned nblk; size_t blk_off[REF_MAX_BLOCKS]; uint64_t blk_usize[REF_MAX_BLOCKS]; unsigned blk_has_sizes[REF_MAX_BLOCKS]; uint64_t blk_chain[REF_MAX_BLOCKS]; /* signature of the Block's filter flags bytes */
 } ref_xz_info;
-extern size_t ref_progress_out;
+extern size_t ref_progress_out; extern int ref_lzma2_preset_dict;
 uint32_t ref_lzma2_dict_size(unsigned b);
 int ref_lzma2_decode(const uint8_t *in, size_t *pos, size_t n, ref_window *w, ref_lzma2_stats *st);
 int ref_xz_decode(const uint8_t *in, size_t n, uint8_t *out, size_t cap, size_t *outlen, ref_xz_info *info);
